@@ -156,6 +156,7 @@ Definition lvis_step (sg : bool) (changes : list change) (m : lstate) (v : lvis)
     | LV (VU t f) => lstep sg m (LIdx (EPut t f))
     | LV (VL t) => lstep sg m (LIdx (EPutLost t))
     | LV (VD t f) => lstep sg m (LIdx (EDel t f))
+    | LV (VK t) => lstep sg m (LIdx (EDelLost t))
     | LV VX => lstep sg m (LIdx EExtDrop)
     | VM t => lstep sg m (LDel t)
     | VN t => lstep sg m (LEnd t)
